@@ -16,6 +16,8 @@
  *   FCV_READ_DELAY_US=N   every read() of a relevant file sleeps N microseconds first (the file stays open meanwhile)
  *   FCV_DTYPE_UNKNOWN=1   readdir reports every entry of a relevant directory with d_type = DT_UNKNOWN, as file
  *              systems without the filetype feature do (the caller then has to lstat each entry)
+ *   FCV_LOCK_CONFLICT_ENOLCK=1  a record-lock request that fails because of a conflicting lock reports ENOLCK
+ *                         ("no locks available", as a lock manager in trouble does) instead of EAGAIN / EACCES
  *   FCV_NOLOCK_DIR=DIR   fcntl record locks (F_SETLK, F_SETLKW, F_OFD_SETLK) on files below DIR fail with
  *              EOPNOTSUPP, like on a file system without lock support
  *   FCV_NOATIME_EPERM=1   every open of a relevant file with O_NOATIME fails with EPERM, as it does for a
@@ -72,6 +74,7 @@ static int dtype_unknown = 0;
 static long read_delay_us = 0;
 static long short_read = 0;
 static char nolock_dir[4096];
+static int conflict_enolck = 0;
 static long kill_k = -1;
 static int kill_after = 0;
 static char pause_class = 0;
@@ -143,6 +146,8 @@ static void init(void) {
     dtype_unknown = du && *du == '1';
     const char *nl = getenv("FCV_NOLOCK_DIR");
     if (nl && *nl) strncpy(nolock_dir, nl, sizeof(nolock_dir) - 1);
+    const char *ce = getenv("FCV_LOCK_CONFLICT_ENOLCK");
+    conflict_enolck = ce && *ce == '1';
     const char *na = getenv("FCV_NOATIME_EPERM");
     noatime_eperm = na && *na == '1';
     const char *j = getenv("FCV_JITTER");
@@ -668,7 +673,16 @@ static int fcntl_common(int (*real)(int, int, ...), int fd, int cmd, void *arg) 
             return -1;
         }
     }
-    return real(fd, cmd, arg);
+    int r = real(fd, cmd, arg);
+    if (r == -1 && conflict_enolck && (errno == EAGAIN || errno == EACCES) && (cmd == F_SETLK || cmd == 37 /* F_OFD_SETLK */)) {
+        char fp[8192];
+        if (fdp_get(fd, fp, sizeof(fp))) {
+            long s0 = atomic_fetch_add(&seq, 1) + 1;
+            logcall(s0, 'R', "lock", fp, NULL, -1, ENOLCK, "CONFLICT-AS-ENOLCK");
+        }
+        errno = ENOLCK;
+    }
+    return r;
 }
 
 int fcntl(int fd, int cmd, ...) {
